@@ -186,6 +186,59 @@ def wf_any(t):
             and t.scrlen == total(t.chunks))
 
 
+def text_of(x):
+    """plain text denoted by an operand of + / += / the constructor (str, chunk or text)"""
+    if isinstance(x, akc._CHTextChunk):
+        return x.text
+    if isinstance(x, akc.CHText):
+        return plain(x.chunks)
+    return str(x)
+
+
+def len_of(x):
+    if isinstance(x, akc._CHTextChunk):
+        return len(x.text)
+    if isinstance(x, akc.CHText):
+        return total(x.chunks)
+    return len(str(x))
+
+
+def color_of(x, pos):
+    """colour prefix of character pos (0 <= pos < len_of(x)) of an operand"""
+    if isinstance(x, akc._CHTextChunk):
+        return x.c_prefix
+    if isinstance(x, akc.CHText):
+        return color_at(x.chunks, pos)
+    return ""
+
+
+def text_of_parts(parts):
+    out = ""
+    for x in parts:
+        out = out + text_of(x)
+    return out
+
+
+def color_in_parts(parts, pos):
+    """colour of character pos of the concatenation of the parts"""
+    off = 0
+    for x in parts:
+        n = len_of(x)
+        if pos < off + n:
+            return color_of(x, pos - off)
+        off = off + n
+    return None
+
+
+def interleave(sep, items):
+    out = []
+    for k, x in enumerate(items):
+        if k:
+            out.append(sep)
+        out.append(x)
+    return out
+
+
 def ANYCHUNKS():
     return T.symobjlist('ak.color:_CHTextChunk', c_prefix=T.str, text=T.str, c_suffix=T.str)
 
@@ -195,6 +248,11 @@ def ANYTEXT():
 
 
 HAVOC_TEXT = {'self.chunks': ANYCHUNKS(), 'self.scrlen': T.int}
+
+
+def _RET_SELF(bound):
+    return T.custom('self', lambda I, name: bound['self'])
+
 _APPENDED = {
     'wf': "wf_any(self)",
     'text': "plain(self.chunks) == plain(old(self.chunks)) + {text}",
@@ -244,22 +302,25 @@ UNBOUNDED_CONTRACTS = [
              result_spec=T.none, havoc=HAVOC_TEXT,
              symlist_models=FOLD_MODELS, raises={}, modifies=['self.chunks', 'self.scrlen']),
     Contract(M, 'CHText.__iadd__', name='CHText.__iadd__/chunk/any_length', prop=PROP, spec_globals=G, level='top',
+             havoc=HAVOC_TEXT, result_spec=_RET_SELF,
              params={'self': T.one_of(ANYTEXT()), 'other': CHUNK(), 'p': T.int},
              requires=["wf_any(self)"],
              ensures=appended('other.text', 'other.c_prefix', returns_self="result is self"),
              symlist_models=FOLD_MODELS, raises={}, modifies=['self.chunks', 'self.scrlen']),
     Contract(M, 'CHText.__iadd__', name='CHText.__iadd__/str/any_length', prop=PROP, spec_globals=G, level='top',
+             havoc=HAVOC_TEXT, result_spec=_RET_SELF,
              params={'self': T.one_of(ANYTEXT()), 'other': T.str, 'p': T.int},
              requires=["wf_any(self)"],
              ensures=appended('other', '""', returns_self="result is self"),
              symlist_models=FOLD_MODELS, raises={}, modifies=['self.chunks', 'self.scrlen']),
     Contract(M, 'CHText.__iadd__', name='CHText.__iadd__/text/any_length', prop=PROP, spec_globals=G, level='top',
+             havoc=HAVOC_TEXT, result_spec=_RET_SELF,
              params={'self': T.one_of(ANYTEXT()), 'other': T.one_of(ANYTEXT()), 'p': T.int},
-             requires=["wf_any(self)", "other.scrlen == total(other.chunks)"],
+             requires=["wf_any(self)"],
              ensures={
                  'wf': "wf_any(self)",
                  'text': "plain(self.chunks) == plain(old(self.chunks)) + plain(other.chunks)",
-                 'len': "self.scrlen == old(self.scrlen) + other.scrlen",
+                 'len': "self.scrlen == old(self.scrlen) + total(other.chunks)",
                  'colors': "not (0 <= p < self.scrlen) or color_at(self.chunks, p) == "
                            "(color_at(old(self.chunks), p) if p < old(self.scrlen) else "
                            "color_at(other.chunks, p - old(self.scrlen)))",
@@ -272,6 +333,52 @@ UNBOUNDED_CONTRACTS = [
                                     "color_at(other.chunks, p - old(self.scrlen))))",
                              'modifies': HAVOC_TEXT}},
              symlist_models=FOLD_MODELS, raises={}, modifies=['self.chunks', 'self.scrlen']),
+    Contract(M, 'CHText.__init__', name='CHText.__init__/any_length', prop=PROP, spec_globals=G, level='top',
+             params={'self': T.obj('ak.color:CHText'),
+                     'parts': T.one_of(T.tuple(), T.tuple(ANYTEXT()), T.tuple(T.str, ANYTEXT()), T.tuple(ANYTEXT(), CHUNK()),
+                                       T.tuple(ANYTEXT(), ANYTEXT()), T.tuple(CHUNK(), T.str, ANYTEXT())),
+                     'p': T.int},
+             requires=[],
+             ensures={
+                 'wf': "wf_any(self)",
+                 'text': "plain(self.chunks) == text_of_parts(parts)",
+                 'len': "self.scrlen == len(text_of_parts(parts))",
+                 'colors': "not (0 <= p < self.scrlen) or color_at(self.chunks, p) == color_in_parts(parts, p)",
+             },
+             result_spec=T.none, havoc=HAVOC_TEXT, symlist_models=FOLD_MODELS, raises={},
+             modifies=['self.chunks', 'self.scrlen']),
+    Contract(M, 'CHText.__add__', name='CHText.__add__/any_length', prop=PROP, spec_globals=G, level='top',
+             params={'self': T.one_of(ANYTEXT()), 'other': T.one_of(ANYTEXT(), T.str, CHUNK()), 'p': T.int},
+             requires=["wf_any(self)"],
+             ensures={
+                 'wf': "wf_any(result)",
+                 'text': "plain(result.chunks) == plain(self.chunks) + text_of(other)",
+                 'len': "result.scrlen == len(plain(self.chunks)) + len(text_of(other))",
+                 'colors': "not (0 <= p < result.scrlen) or color_at(result.chunks, p) == color_in_parts((self, other), p)",
+                 'fresh': "result is not self and result.chunks is not self.chunks",
+             },
+             symlist_models=FOLD_MODELS, raises={}, modifies=[]),
+    Contract(M, 'CHText.__radd__', name='CHText.__radd__/any_length', prop=PROP, spec_globals=G, level='top',
+             params={'self': T.one_of(ANYTEXT()), 'other': T.one_of(T.str, CHUNK()), 'p': T.int},
+             requires=["wf_any(self)"],
+             ensures={
+                 'wf': "wf_any(result)",
+                 'text': "plain(result.chunks) == text_of(other) + plain(self.chunks)",
+                 'colors': "not (0 <= p < result.scrlen) or color_at(result.chunks, p) == color_in_parts((other, self), p)",
+             },
+             symlist_models=FOLD_MODELS, raises={}, modifies=[]),
+    Contract(M, 'CHText.join', name='CHText.join/any_length', prop=PROP, spec_globals=G, level='top',
+             params={'self': T.one_of(ANYTEXT()),
+                     'iterable': T.one_of(T.list(), T.list(ANYTEXT()), T.list(T.str, ANYTEXT()), T.list(ANYTEXT(), CHUNK(), T.str)),
+                     'p': T.int},
+             requires=[],
+             ensures={
+                 'wf': "wf_any(result)",
+                 'text': "plain(result.chunks) == text_of_parts(interleave(self, iterable))",
+                 'colors': "not (0 <= p < result.scrlen) or color_at(result.chunks, p) == "
+                           "color_in_parts(interleave(self, iterable), p)",
+             },
+             symlist_models=FOLD_MODELS, raises={}, modifies=[]),
     Contract(M, 'CHText.__getitem__', name='CHText.__getitem__/index/any_length', prop=PROP, spec_globals=G, level='top',
              params={'self': T.one_of(ANYTEXT()), 'index': T.int},
              requires=["self.scrlen == total(self.chunks)"],
@@ -442,14 +549,35 @@ def total_runs(rs):
 
 CHText_cls = akc.CHText
 
-BOUNDED_SYMBOLIC = {'CHText.join': 3, 'CHText.__init__': 2, 'CHText._append_chunk': 3, 'CHText.__iadd__': 2, 'CHText.__add__': 2, 'CHText.__radd__': 2,
+BOUNDED_SYMBOLIC = {'CHText.join/any_length': "at most 3 joined items (str / chunk / text); every text has any number of chunks",
+                    'CHText.__init__/any_length': "at most 3 constructor arguments (str / chunk / text); every text has any number of chunks",
+                    'CHText.join': 3, 'CHText.__init__': 2, 'CHText._append_chunk': 3, 'CHText.__iadd__': 2, 'CHText.__add__': 2, 'CHText.__radd__': 2,
                     'CHText.__eq__/text': 2, 'CHText.__eq__/str': 3, 'CHText.fixed_len': 2, 'CHText._get_chunk_pos': 3, 'CHText.__getitem__/index': 3, 'CHText.__getitem__/slice': 3}
+_IADD_ANY = ['CHText.__iadd__/chunk/any_length', 'CHText.__iadd__/str/any_length', 'CHText.__iadd__/text/any_length']
 USES = {'CHText.__getitem__/index/any_length': ['CHText._get_chunk_pos/any_length'],
         'CHText.__iadd__/chunk/any_length': ['CHText._append_chunk/any_length'],
         'CHText.__iadd__/str/any_length': ['CHText._append_chunk/any_length'],
-        'CHText.__iadd__/text/any_length': ['CHText._append_chunk/any_length']}
+        'CHText.__iadd__/text/any_length': ['CHText._append_chunk/any_length'],
+        'CHText.__init__/any_length': _IADD_ANY, 'CHText.__add__/any_length': _IADD_ANY + ['CHText.__init__/any_length'],
+        'CHText.__radd__/any_length': ['CHText.__init__/any_length'],
+        'CHText.join/any_length': _IADD_ANY + ['CHText.__init__/any_length']}
 ASSUMED_LIBRARY = []
 CANARIES = [
+    {'name': 'anylen_iadd_skips_first_chunk_of_operand', 'module': M, 'function': 'CHText.__iadd__',
+     'verify': 'CHText.__iadd__/text/any_length',
+     'old': 'self._append_chunk(part)', 'new': 'self._append_chunk(part.clone(part.text + "x"))',
+     'unproved_is_enough': True,
+     'expect': 'C08.CHText.__iadd__/text/any_length.loop1.inv_preserved'},
+    {'name': 'anylen_add_mutates_self', 'module': M, 'function': 'CHText.__add__', 'verify': 'CHText.__add__/any_length',
+     'old': 'result = type(self)(self)  # clone self', 'new': 'result = self', 'unproved_is_enough': True,
+     'expect': 'C08.CHText.__add__/any_length.fresh'},
+    {'name': 'anylen_radd_wrong_order', 'module': M, 'function': 'CHText.__radd__', 'verify': 'CHText.__radd__/any_length',
+     'old': 'return type(self)(other, self)', 'new': 'return type(self)(self, other)', 'unproved_is_enough': True,
+     'expect': 'C08.CHText.__radd__/any_length.text'},
+    {'name': 'anylen_join_separator_before_first', 'module': M, 'function': 'CHText.join', 'verify': 'CHText.join/any_length',
+     'old': 'is_first = True', 'new': 'is_first = False',
+     'combos': ['iterable:list(str,'], 'unproved_is_enough': True,
+     'expect': 'C08.CHText.join/any_length.text'},
     {'name': 'anylen_append_counts_one', 'module': M, 'function': 'CHText._append_chunk', 'verify': 'CHText._append_chunk/any_length',
      'old': 'self.scrlen += len(chunk.text)', 'new': 'self.scrlen += 1',
      'expect': 'C08.CHText._append_chunk/any_length.len'},
